@@ -582,7 +582,7 @@ def ob_lineage_run(m: int, scoped: bool, v0: bool, v1: bool, v2: bool, retry_onc
     while runner.tick_buffer and failed_with is None:
         guard += 1
         if guard > 60:
-            raise vlib.boot.HarnessError("lineage run does not terminate")
+            return False    # the lineage goes on for ever (m <= 2 recoveries and <= 2 attempts each end well within 60 ticks): the budget does not bound it
         tick = runner.tick_buffer.pop(0)
         runner.state, cmds = _reduce_tick(tick, runner.state, 1, "r")
         for c in cmds:
